@@ -418,8 +418,11 @@ class TimeRecurrence:
             # zero interval gives the same recurrence in the same format.
             duration = Duration(years=0)
         if self._format_number == 1:
-            kwargs = {"start_point": self._start_point + other,
-                      "end_point": self._second_point + other}
+            # N.B. Keep the interval: shifting the second point by itself
+            # can change it (or collapse it) when months or years clamp.
+            start_point = self._start_point + other
+            kwargs = {"start_point": start_point,
+                      "end_point": start_point + duration}
         elif self._format_number == 3:
             kwargs = {"start_point": self._start_point + other,
                       "duration": duration}
